@@ -1400,7 +1400,27 @@ pub fn probe_claims() -> i32 {
     for (sp, want) in [(vec![Value::from(1)], false), (vec![Value::from(-1), Value::Bytes(vec![])], false), (vec![Value::from(1), Value::Bytes(vec![]), Value::Bytes(vec![2])], true),
                        (vec![Value::from(1), Value::Bytes(vec![]), Value::Null], false), (vec![Value::from(1), Value::Bytes(vec![0xa0, 0x00])], false), (vec![Value::from(u64::MAX), Value::Bytes(vec![0xa0])], true)] {
         n += 1;
-        if SuppPubInfo::from_cbor_value(Value::Array(sp.clone())).is_ok() != want { if report("C18", format!("SuppPubInfo {:?}: want ok={}", sp, want)) { return 1; } }
+        let r = SuppPubInfo::from_cbor_value(Value::Array(sp.clone()));
+        if r.is_ok() != want { if report("C18", format!("SuppPubInfo {:?}: want ok={}", sp, want)) { return 1; } }
+        if let Ok(x) = r { if x.to_cbor_value().ok() != Some(Value::Array(sp.clone())) { if report("C18", format!("SuppPubInfo {:?} does not encode back to the same array", sp)) { return 1; } } }
+    }
+    // present-but-empty optional slots must survive: SuppPubInfo.other = h'', trailing SuppPrivInfo entries h'', PartyInfo slots h''
+    for sp in [vec![Value::from(1), Value::Bytes(vec![]), Value::Bytes(vec![])], vec![Value::from(128), Value::Bytes(vec![0xa0]), Value::Bytes(vec![])]] {
+        n += 1;
+        match SuppPubInfo::from_cbor_value(Value::Array(sp.clone())) {
+            Ok(x) => { if x.to_cbor_value().ok() != Some(Value::Array(sp.clone())) { if report("C18", format!("SuppPubInfo {:?} (empty `other`) does not encode back to the same array", sp)) { return 1; } } }
+            Err(_) => { if report("C18", format!("SuppPubInfo {:?} rejected", sp)) { return 1; } }
+        }
+        let e = || Value::Bytes(vec![]);
+        for a in [vec![Value::from(1), party(e(), e(), e()), party(e(), Value::from(0), e()), Value::Array(sp.clone())],
+                  vec![Value::from(1), okp.clone(), okp.clone(), Value::Array(sp.clone()), e()],
+                  vec![Value::from(1), okp.clone(), party(Value::Null, e(), Value::Null), Value::Array(sp.clone()), e(), Value::Bytes(vec![7]), e()]] {
+            n += 1;
+            match CoseKdfContext::from_cbor_value(Value::Array(a.clone())) {
+                Ok(c) => { if c.to_cbor_value().ok() != Some(Value::Array(a.clone())) { if report("C18", format!("COSE_KDF_Context {:?} (empty optional slots) does not encode back to the same array", a)) { return 1; } } }
+                Err(_) => { if report("C18", format!("COSE_KDF_Context {:?} rejected", a)) { return 1; } }
+            }
+        }
     }
     println!("probe claims: {} cases, no disagreement", n);
     0
